@@ -17,6 +17,8 @@ CONSTANTS MaxPly,      \* depth bound of the exploration
           EmitOn,      \* TRUE: print one JSON line per expanded state
           EmitLight,   \* TRUE: the line carries only the position text (for C11/C14/... inputs)
           CheckMirror, \* TRUE: check Legal(Mirror(p)) = Mirror(Legal(p)) on every expanded state
+          Shard, NShards, \* generated families are enumerated in NShards separate TLC runs (by king square)
+          SeedMode,    \* "file": the seed list; "ep1"/"ep2"/"castle1"/"castle2": a generated family (below)
           WeakenSeeds  \* TRUE: also start from every seed with any subset of its castling rights
                        \* and/or its e.p. square dropped ("unusual right / e.p. combinations")
 
@@ -30,9 +32,62 @@ vars == <<pos, path, root>>
 ply == Len(path)
 last == IF path = <<>> THEN "" ELSE path[Len(path)]
 
-Init == \E i \in 1..Len(Seeds) :
-          /\ pos \in (IF WeakenSeeds THEN Weakenings(FromJson(Seeds[i].pos)) ELSE {FromJson(Seeds[i].pos)})
-          /\ path = <<>> /\ root = i
+(***************************************************************************)
+(* Generated families ("worlds"): small positions enumerated exhaustively  *)
+(* around the rules whose legality test depends on lines through the king. *)
+(*  ep:     the mover's king anywhere, a pawn that can capture en passant, *)
+(*          the pawn that just advanced two, and one / two enemy sliders   *)
+(*          on the lines through the king (pins along / across the capture *)
+(*          line, checks discovered by the double push, the rank with both *)
+(*          pawns); every combination, filtered by Valid.                  *)
+(*  castle: king and both rooks at home with all rights, one / two enemy   *)
+(*          pieces of any kind anywhere (transit squares attacked, king in *)
+(*          check, rook attacked only).                                    *)
+(* Each family is closed under Mirror (both colours).                      *)
+(***************************************************************************)
+KingLines(k) == UNION {{Ray[k][d][i] : i \in 1..Len(Ray[k][d])} : d \in QueenD}
+Put(pieces) == [s \in Squares |-> IF \E x \in pieces : x[1] = s THEN (CHOOSE x \in pieces : x[1] = s)[2] ELSE 0]
+DistinctSquares(pieces) == Cardinality({x[1] : x \in pieces}) = Cardinality(pieces)
+
+\* white to move, black has just played a double push to `bp` (ep square behind it); white pawn on `wp`
+EpConfigs(full) == IF full THEN {<<36, 35, 43>>, <<34, 35, 43>>, <<33, 32, 40>>, <<38, 39, 47>>}   \* e5xd6, c5xd6, b5xa6, g5xh6
+                   ELSE {<<36, 35, 43>>}
+EpWorld(two, full) ==
+  LET kbs == IF full THEN {0, 7, 63} ELSE {7}
+      base == UNION {{ <<k, c, kb>> : k \in {q \in Squares : q % NShards = Shard} \ {c[1], c[2], c[3], kb} } : c \in EpConfigs(full), kb \in kbs}
+      one == UNION {{ {<<b[1], 6>>, <<b[3], 12>>, <<b[2][1], 1>>, <<b[2][2], 7>>, <<s1, k1>>}
+                        : s1 \in KingLines(b[1]), k1 \in {9, 10} } : b \in base}
+      twoS == UNION {{ {<<b[1], 6>>, <<b[3], 12>>, <<b[2][1], 1>>, <<b[2][2], 7>>, <<s1, k1>>, <<s2, k2>>}
+                        : s1 \in KingLines(b[1]), k1 \in {9, 10}, s2 \in KingLines(b[1]), k2 \in {9, 10} } : b \in base}
+      sets == IF two THEN twoS ELSE one
+      ps == {[bd |-> Put(x), stm |-> "w", cr |-> {}, ep |-> (CHOOSE y \in x : y[2] = 7)[1] + 8] : x \in {y \in sets : DistinctSquares(y)}}
+      ok == {p \in ps : Valid(p)}
+  IN ok \cup {Mirror(p) : p \in ok}
+
+CastleWorld(two) ==
+  LET kinds == {7, 8, 9, 10, 11}
+      home == {<<4, 6>>, <<0, 4>>, <<7, 4>>}
+      sqs == Squares \ {4, 0, 7}
+      mine == {q \in sqs : q % NShards = Shard}
+      one == UNION {{ home \cup {<<kb, 12>>, <<s1, k1>>} : s1 \in mine \ {kb}, k1 \in kinds } : kb \in {57, 62}}
+      twoS == UNION {{ home \cup {<<kb, 12>>, <<s1, k1>>, <<s2, k2>>} : s1 \in mine \ {kb}, k1 \in kinds, s2 \in sqs \ {kb}, k2 \in kinds } : kb \in {62}}
+      sets == IF two THEN twoS ELSE one
+      ps == {[bd |-> Put(x), stm |-> "w", cr |-> {"K", "Q"}, ep |-> -1] : x \in {y \in sets : DistinctSquares(y)}}
+      ok == {p \in ps : Valid(p)}
+  IN ok \cup {Mirror(p) : p \in ok}
+
+World == CASE SeedMode = "ep1" -> EpWorld(FALSE, TRUE)
+           [] SeedMode = "ep2" -> EpWorld(TRUE, FALSE)
+           [] SeedMode = "ep2full" -> EpWorld(TRUE, TRUE)
+           [] SeedMode = "castle1" -> CastleWorld(FALSE)
+           [] SeedMode = "castle2" -> CastleWorld(TRUE)
+           [] OTHER -> {}
+
+Init == IF SeedMode = "file"
+        THEN \E i \in 1..Len(Seeds) :
+               /\ pos \in (IF WeakenSeeds THEN Weakenings(FromJson(Seeds[i].pos)) ELSE {FromJson(Seeds[i].pos)})
+               /\ path = <<>> /\ root = i
+        ELSE pos \in World /\ path = <<>> /\ root = 0
 
 PlayMove(m) == /\ pos' = Apply(pos, m)
                /\ path' = Append(path, Uci(m))
@@ -44,7 +99,7 @@ PerftView == <<pos, path>>      \* one state per move sequence: counts are perft
 (* invariants *)
 ValidInv == Valid(pos)
 \* the structural seed really is the position its FEN text denotes (validates the seed converter)
-SeedTextOK == ply = 0 => ToFEN4(FromJson(Seeds[root].pos)) = Seeds[root].fen
+SeedTextOK == (ply = 0 /\ root > 0) => ToFEN4(FromJson(Seeds[root].pos)) = Seeds[root].fen
 \* UCI text identifies a move
 UciInjective == LET L == Legal(pos) IN Cardinality({Uci(m) : m \in L}) = Cardinality(L)
 \* rules symmetry: the legal moves of the mirrored position are the mirrored legal moves
